@@ -55,6 +55,9 @@ mut("c10-fail-state-returns-ok", "C10",
     '                        state_body.add(f"return {self.program_name.upper()}_OK;")\n\n            contents.add(f"default: return {self.program_name.upper()}_FAIL;")\n            contents.add("}")\n\n        result.add("}")\n        return result.value()\n\n    def _generate_end_switch_body')
 mut("c10-zero-len-after-fail-ok", "C10",
     'return state->state == {self.dfa.states.index(self.generic_fail_state)} ? {self.program_name.upper()}_FAIL : {self.program_name.upper()}_OK;', 'return {self.program_name.upper()}_OK;')
+mut("c10-foreach-actions-on-fallthrough", "C10",
+    "                if transition.target in ignored_targets or transition.is_fallthrough:\n                    continue\n                transition.attach(*self.each_actions, prepend=True)",
+    "                if transition.target in ignored_targets:\n                    continue\n                transition.attach(*self.each_actions, prepend=True)", extra_props=("C03",))
 mut("c10-overflow-keeps-early-advance", "C10",
     "                    if not is_end and self._transition_advances_early(transition):", "                    if False:", extra_props=("C02", "C03"))
 mut("c10-strict-done-takes-error-transition", "C10",
